@@ -59,7 +59,7 @@ def hot_urls(comp, s):
     if comp == "password":
         return [R.assemble(user="u", password=s)]
     if comp == "path":
-        return [R.assemble(path="/" + s), R.assemble(path="/x/" + s + "/y", query="k=v")]
+        return [R.assemble(path="/" + s), R.assemble(path="/x/" + s + "/y", query="k=v"), R.assemble(path="/x/" + s)]
     if comp == "query":
         return [R.assemble(path="/p", query=s), R.assemble(query="k=" + s + "&z")]
     return [R.assemble(path="/p", fragment=s), R.assemble(fragment=s)]
